@@ -112,6 +112,11 @@ def twin_projects():
             files["res/c.jst"] = twin_text("c", "owls")
             main += "INCLUDE res/c.jst\n"
         res.append((nm, "JSIGHT 0.3\n" + "".join(files[k] for k in sorted(files)), main, files))
+    # the file name written in double quotes like any other parameter: a name that needs none, a name with a blank,
+    # a name in a subdirectory, a name with an escaped backslash-free quote-free body next to an annotation-like tail
+    for k, (fname, written) in enumerate([("part.jst", '"part.jst"'), ("two words.jst", '"two words.jst"'), ("sub/p.jst", '"sub/p.jst"'), ("h#sh.jst", '"h#sh.jst"')]):
+        body = "TYPE @zquoted%d any\nGET /zquoted%d\n  200 any\n" % (k, k)
+        res.append(("quoted_file_name_%d" % k, "JSIGHT 0.3\n" + body + "TYPE @zafter any\n", "JSIGHT 0.3\nINCLUDE %s\nTYPE @zafter any\n" % written, {fname: body}))
     # what an included file leaves open stays open: a '###' block comment (opened between directives / on a directive line / at
     # the very beginning) that its file never closes (only the unclosed text is compared: closing it in the includer would split a
     # comment, not move complete directives)
